@@ -33,5 +33,5 @@ def run_margin(case):
 
 
 PARTS = [
-    Part("margin", strategy=lambda tier: B.histories(tier, margined_bias=True), run=run_margin, quick=5000, thorough=400000),
+    Part("margin", strategy=lambda tier: B.histories(tier, margined_bias=True, near_close=True), run=run_margin, quick=5000, thorough=400000),
 ]
